@@ -190,6 +190,26 @@ RAW = ["1b", "1b5b", "1b5b31", "1b5b3c", "1b5b3c303b353b354d", "1b5b3c303b353b35
        "1b5b3939393939393939393939393b31523b", "1b5b313b3152", "1b5d", "1b50", "1b5b3f", "9b41", "61", "20", "0b", "0e", "10", "15", "17", "19", "01", "05", "02", "06", "08"]
 
 
+def sgr(btn, x, y, press=True):
+    return ("\x1b[<%d;%d;%d%s" % (btn, x, y, "M" if press else "m")).encode().hex()
+
+
+def mouse_gesture(rng, w, h):
+    """A press, a few button-held motion reports and a release (SGR 1006 reports), with coordinates on and around the
+    window: last column (scrollbar), first / last rows, outside the window, zero and huge values."""
+    def coord(n):
+        return rng.choice([1, 2, n - 1, n, n, n + 1, n + 7, max(1, n // 2), 0, 999, rng.randint(1, max(1, n))])
+    btn = rng.choice([0, 0, 0, 1, 2])
+    x0, y0 = coord(w), coord(h)
+    seq = [sgr(btn, x0, y0)]
+    for _ in range(rng.randint(1, 5)):
+        seq.append(sgr(32 + btn, rng.choice([x0, x0, coord(w)]), coord(h)))
+    seq.append(sgr(btn, coord(w), coord(h), press=False))
+    if rng.random() < 0.3:
+        seq.append(sgr(rng.choice([64, 65, 68, 69]), coord(w), coord(h)))      # wheel (with shift)
+    return seq
+
+
 def robust_scenario(rng, tier_quick):
     cfg = {"full": rng.random() < 0.6, "mouse": rng.random() < 0.8, "clear": rng.random() < 0.85}
     if not cfg["full"]:
@@ -218,8 +238,13 @@ def robust_scenario(rng, tier_quick):
         r = rng.random()
         if r < 0.25:
             steps.append(["resize"] + list(rng.choice(sizes)))
-        elif r < 0.55:
+        elif r < 0.45:
             steps.append(["raw", "".join(rng.choice(RAW) for _ in range(rng.randint(1, 4)))])
+        elif r < 0.55:
+            cur = [st2 for st2 in steps if st2[0] == "resize"]
+            w, h = (cur[-1][1], cur[-1][2]) if cur else size
+            for rep in mouse_gesture(rng, w, h):
+                steps.append(["raw", rep])
         elif r < 0.6:
             steps.append(["post", rng.choice(["toggle-preview", "toggle-preview-wrap", "preview-down", "preview-page-up", "toggle-header", "toggle-input",
                                               "change-preview-window(right,80%|hidden|up,1)", "toggle-wrap", "offset-up", "offset-down", "jump",
@@ -236,7 +261,9 @@ SWEEP_OPTS = [["--pointer", ">>", "--marker", ">>"], ["--border", "--margin", "1
               ["--ellipsis", "", "--no-hscroll"], ["--input-border", "--list-border", "--header-border", "--header", "h"],
               ["--pointer", "", "--marker", ""], ["--keep-right"], ["--layout=reverse-list", "--info=inline-right"],
               ["--preview", "echo {}", "--preview-window=up,3,border-double", "--border"],
-              ["--ellipsis", "....", "--pointer", "=>"], ["--highlight-line", "--gap", "--multi"], []]
+              ["--ellipsis", "....", "--pointer", "=>"], ["--highlight-line", "--gap", "--multi"], [],
+              ["--header-first"], ["--header-first", "--header", "H", "--info=right"], ["--list-border", "--header-first"],
+              ["--header-first", "--header-lines=1", "--layout=reverse"]]
 
 
 def sweep_scenario(rng, k):
@@ -251,6 +278,9 @@ def sweep_scenario(rng, k):
     heights = [8, 5, 4, 3, 2, 1]
     steps = []
     pokes = ["down", "up", "toggle+down", "put(a)", "backward-delete-char", "last", "first", "toggle-preview", "clear-screen"]
+    for _ in range(3):
+        for rep in mouse_gesture(rng, 80, 24):
+            steps.append(["raw", rep])
     for w in widths:
         steps.append(["resize", w, 24])
         steps.append(["post", rng.choice(pokes)])
@@ -413,8 +443,8 @@ def run(ctx):
             scenarios.append(random_scenario(rng))
         for _ in range(ctx.pick(14, 150)):
             scenarios.append(robust_scenario(rng, ctx.quick))
-        # the option sets that eat gutter / border columns (the first five) in every run, the others in rotation
-        ks = list(range(5)) + [5 + (ctx.seed * 5 + j) % (len(SWEEP_OPTS) - 5) for j in range(5)] if ctx.quick else list(range(3 * len(SWEEP_OPTS)))
+        # every option set once (three times in the thorough tier, with different seeded details)
+        ks = list(range(len(SWEEP_OPTS))) if ctx.quick else list(range(3 * len(SWEEP_OPTS)))
         for k in ks:
             scenarios.append(sweep_scenario(rng, k))
 
